@@ -778,6 +778,52 @@ func c03PersistLists(c *Ctx) {
 			} else {
 				c.R.Cond(indexOf(kinds, "current") >= 0 && indexOf(kinds, "merged") >= 0, rule, "kv.Open: explicit versions are looked up in merged/ and current/", pos,
 					"lookup list ["+ks+"], nothing is skipped", "explicit version set is not looked up in both merged/ and current/: ["+ks+"]")
+				c.R.Cond(lastIndexOf(kinds, "merged") > lastIndexOf(kinds, "current"), rule, "kv.Open: a named version that is being retired is found", pos,
+					"lookup list ["+ks+"]: merged/ is looked at after current/", "lookup list ["+ks+"] ends with current/: a commit moves a version from current/ to merged/ (PUT merged/, then DELETE current/), so an open whose GET of merged/ comes before the PUT and whose GET of current/ comes after the DELETE finds the version in neither place and fails with 'not found' although it exists at every moment")
+			}
+		}
+	}
+	// every other lookup list handed to loadRootFromAny (the version graph of history and vacuum)
+	if loadAny := c.P.LookupFunc("kv", "", "loadRootFromAny"); loadAny != nil {
+		rootF := an.LookupField(c.P, "kv", "DB", "root")
+		mergedF := an.LookupField(c.P, "kv", "DB", "merged")
+		for _, fn := range c.P.RepoFuncs(func(rel string) bool { return rel == "kv" }) {
+			if fn == mergeRootsFn {
+				continue
+			}
+			for _, call := range an.Calls(fn) {
+				if call.Common().StaticCallee() != loadAny {
+					continue
+				}
+				elems, ok := sliceLitElems(call.Common().Args[1])
+				if !ok {
+					continue
+				}
+				var kinds []string
+				for _, e := range elems {
+					k := persistKind(an.Unwrap(e))
+					switch an.FieldOfLoad(an.Unwrap(e)) {
+					case rootF:
+						k = "current"
+					case mergedF:
+						k = "merged"
+					}
+					if mi, isMI := an.Unwrap(e).(*ssa.MakeInterface); isMI {
+						switch an.FieldOfLoad(mi.X) {
+						case rootF:
+							k = "current"
+						case mergedF:
+							k = "merged"
+						}
+					}
+					kinds = append(kinds, k)
+				}
+				ks := strings.Join(kinds, ",")
+				if indexOf(kinds, "current") < 0 {
+					continue
+				}
+				c.R.Cond(lastIndexOf(kinds, "merged") > lastIndexOf(kinds, "current"), rule, core.FuncName(fn)+": a version that is being retired is found", c.P.Pos(call.Pos()),
+					"lookup list ["+ks+"]: merged/ is looked at after current/", "lookup list ["+ks+"] ends with current/: a version that a commit retires between the two lookups is found in neither place")
 			}
 		}
 	}
@@ -805,6 +851,16 @@ func c03PersistLists(c *Ctx) {
 			c.R.Unk(rule, "kv.Open: DB."+pair[0]+" binding", c.P.Pos(open.Pos()), "no store to DB."+pair[0]+" found in Open")
 		}
 	}
+}
+
+func lastIndexOf(xs []string, s string) int {
+	r := -1
+	for i, x := range xs {
+		if x == s {
+			r = i
+		}
+	}
+	return r
 }
 
 func indexOf(xs []string, s string) int {
